@@ -8,6 +8,7 @@ Obligations per final world:
   idempotence   split(' and '.join(pieces)) == pieces
   exact         (brace-balanced inputs) result == reference splitter written from the statement
 """
+import os
 import sys
 import z3
 
@@ -280,7 +281,7 @@ def task_c(L, prefix=""):
 def conformance():
     """concrete-mode conformance of the engine on the repository's own name-list test inputs"""
     import ast, inspect, os
-    src = open("/repo/tests/middleware_tests/test_names.py").read()
+    src = open(os.environ.get("VERIF_REPO", "/repo") + "/tests/middleware_tests/test_names.py").read()
     strs = sorted({n.value for n in ast.walk(ast.parse(src)) if isinstance(n, ast.Constant) and isinstance(n.value, str) and len(n.value) < 120})
     eng = Engine()
     eng.interpret_also(ref_split, balanced)
